@@ -19,6 +19,7 @@ import json
 import math
 import os
 import time
+import warnings
 
 import numpy as np
 
@@ -218,15 +219,6 @@ def gen_comb(rng, nmax, f0=None):
     return chs
 
 
-def vec(rng, n, draw, scalar_ok=True):
-    if scalar_ok and rng.random() < 0.3:
-        return draw()
-    if rng.random() < 0.2:
-        x = draw()
-        return [x] * n
-    return [draw() for _ in range(n)]
-
-
 def gen_hist(rng, nmax=30, maxops=20, malformed=False):
     chs = gen_comb(rng, nmax)
     if rng.random() < 0.3:
@@ -237,14 +229,16 @@ def gen_hist(rng, nmax=30, maxops=20, malformed=False):
     for _ in range(nops):
         r = rng.random()
         if r < 0.14:
-            ops.append({'op': 'att_lin', 'v': vec(rng, 0, lambda: 10 ** (-rng.uniform(0, 35) / 10)), 'mode': rng.random()})
-        elif r < 0.30:
-            ops.append({'op': 'att_db', 'v': vec(rng, 0, lambda: rng.choice([0.0, 0.5, rng.uniform(0, 30), rng.uniform(-3, 3)])),
+            ops.append({'op': 'att_lin', 'proto': 10 ** (-rng.uniform(0, 35) / 10), 'vector': rng.random() < 0.7,
                         'mode': rng.random()})
+        elif r < 0.30:
+            ops.append({'op': 'att_db', 'proto': rng.choice([0.0, 0.5, rng.uniform(0, 30), rng.uniform(-3, 3)]),
+                        'vector': rng.random() < 0.7, 'mode': rng.random()})
         elif r < 0.38:
-            ops.append({'op': 'gain_lin', 'v': vec(rng, 0, lambda: 10 ** (rng.uniform(0, 35) / 10)), 'mode': rng.random()})
+            ops.append({'op': 'gain_lin', 'proto': 10 ** (rng.uniform(0, 35) / 10), 'vector': rng.random() < 0.7,
+                        'mode': rng.random()})
         elif r < 0.50:
-            ops.append({'op': 'gain_db', 'v': vec(rng, 0, lambda: rng.uniform(-2, 35)), 'mode': rng.random()})
+            ops.append({'op': 'gain_db', 'proto': rng.uniform(-2, 35), 'vector': rng.random() < 0.7, 'mode': rng.random()})
         elif r < 0.68:
             big = rng.random() < 0.1
             ops.append({'op': 'ase', 'rel': (lambda: 10 ** (-rng.uniform(-10 if big else 8, 60) / 10)), 'mode': rng.random(),
@@ -260,10 +254,20 @@ def gen_hist(rng, nmax=30, maxops=20, malformed=False):
         else:
             ops.append({'op': 'add', 'where': rng.choice(['above', 'below', 'gap']), 'n': rng.randint(1, 4),
                         'noise': rng.random() < 0.7})
-    bad = None
+    bad, bad_at = None, rng.randint(0, max(0, nops - 1))
     if malformed:
-        bad = rng.choice(['shape', 'overlap_add', 'overlap_init', 'empty_mux', 'nli_gt_p', 'dup_band'])
-    return {'kind': 'hist', 'chs': chs, 'ops': ops, 'bad': bad, 'bad_at': rng.randint(0, max(0, nops - 1))}
+        bad = rng.choice(['shape', 'shape', 'overlap_add', 'overlap_init', 'empty_mux', 'nli_gt_p', 'dup_band'])
+        # make sure the operation at the injection point is one the defect applies to
+        forced = {'shape': rng.choice([{'op': 'ase', 'rel': (lambda: 1e-4), 'mode': 0.0, 'zero': False},
+                                       {'op': 'nli', 'style': 'small', 'mode': 0.0, 'zero': False},
+                                       {'op': 'att_lin', 'proto': 0.5, 'vector': True, 'mode': 0.0}]),
+                  'overlap_add': {'op': 'add', 'where': 'above', 'n': 2, 'noise': True},
+                  'empty_mux': {'op': 'remux', 'nb': 1, 'cover': 1.0},
+                  'dup_band': {'op': 'remux', 'nb': 2, 'cover': 0.0},
+                  'nli_gt_p': {'op': 'nli', 'style': 'small', 'mode': 0.0, 'zero': False}}
+        if bad in forced:
+            ops[bad_at] = forced[bad]
+    return {'kind': 'hist', 'chs': chs, 'ops': ops, 'bad': bad, 'bad_at': bad_at}
 
 
 def _mk_si(chs, noise=None):
@@ -282,7 +286,6 @@ def make_concrete(rng, case):
     """draw the concrete arguments of every operation against the evolving real object (so that vector sizes,
     relative noise levels and bands make sense); the result is a fully explicit, replayable case"""
     from gnpy.core.exceptions import SpectrumError
-    from gnpy.core.info import demuxed_spectral_information, muxed_spectral_information
     try:
         si = _mk_si(case['chs'])
     except SpectrumError:
@@ -299,21 +302,16 @@ def make_concrete(rng, case):
         n = si.number_of_channels
         f, sw = np.array(si.frequency), np.array(si.slot_width)
 
-        def sized(v):
-            if isinstance(v, list):
-                return [v[0]] * n if v else None
-            return v
         op = o['op']
         inject = bad if (bad and k == bad_at) else None
         if op in ('att_lin', 'att_db', 'gain_lin', 'gain_db'):
-            v = o['v']
-            if isinstance(v, list):
-                # regenerate per channel with the same distribution by perturbing the drawn prototype
-                proto = v[0] if v else 1.0
+            v = o['proto']
+            if o['vector']:
+                # per channel values around the prototype (a tilted gain / per-channel equalisation), or all equal
                 if op.endswith('_db'):
-                    v = [proto + rng.uniform(-2, 2) * (o['mode'] < 0.7) for _ in range(n)]
+                    v = [v + rng.uniform(-2, 2) * (o['mode'] < 0.7) for _ in range(n)]
                 else:
-                    v = [proto * 10 ** (rng.uniform(-0.2, 0.2) * (o['mode'] < 0.7)) for _ in range(n)]
+                    v = [v * 10 ** (rng.uniform(-0.2, 0.2) * (o['mode'] < 0.7)) for _ in range(n)]
             if inject == 'shape' and n > 1:
                 v = ([v] * (n + 1)) if not isinstance(v, list) else v + [v[0]]
             c = {'op': op, 'v': v}
@@ -965,14 +963,17 @@ def drive_path(case):
     try:
         net = network_from_json(copy.deepcopy(case['topo']), eq)
         spec = _spectrum_from_json(copy.deepcopy(case['spectrum'])) if case['spectrum'] else None
-        net, req, ref = designed_network(eq, net, source=case['src'], destination=case['dst'], initial_spectrum=spec,
-                                         args_power=case.get('power_dbm'))
+        with warnings.catch_warnings():
+            warnings.simplefilter('ignore')
+            net, req, ref = designed_network(eq, net, source=case['src'], destination=case['dst'], initial_spectrum=spec,
+                                             args_power=case.get('power_dbm'))
         path = compute_constrained_path(net, req)
         if not path:
             return None
         path = copy.deepcopy(path)
         with Tracer() as tr:
-            with np.errstate(all='ignore'):
+            with np.errstate(all='ignore'), warnings.catch_warnings():
+                warnings.simplefilter('ignore')
                 si = propagate(path, req, eq)
         return {'path': path, 'calls': tr.calls, 'updates': tr.updates, 'si': si, 'req': req}
     finally:
@@ -1372,7 +1373,7 @@ def run_all(ctx, prop, hist_oracle_fn, path_oracle_fn, sample_k, n_hist, n_bad, 
                 if process_path(ctx, gen_path_case(rng, flavour, ctx.thorough), path_oracle_fn, sample_k, terms, meta):
                     got += 1
     t_drive = time.time()
-    lines = balanced_eval(prop, terms, 'cases')
+    lines = balanced_eval(prop, terms, 'cases', nshards=ctx.scale(16, 96))
     ctx.extra['timing_s'] = {'proofs': round(t_start - ctx.t0, 1), 'gnpy_side': round(t_drive - t_start, 1),
                              'coq_eval': round(time.time() - t_drive, 1), 'terms': len(terms),
                              'term_chars': sum(len(x) for x in terms)}
@@ -1409,5 +1410,5 @@ def run(ctx):
                 '(b) random designed networks (meshes, ROADM-less lines, multiband, Raman; every amplifier model of the '
                 'shipped library; mixed-rate launched spectra) traced element by element; a history is non-trivial with >= 3 '
                 'operation kinds, a path with >= 4 elements incl. fibre and amplifier; distinct by content hash')
-    run_all(ctx, PROP, hist_oracle, path_oracle_c01, 6, ctx.scale(220, 4000), ctx.scale(40, 400), ctx.scale(20, 280))
+    run_all(ctx, PROP, hist_oracle, path_oracle_c01, 6, ctx.scale(200, 3000), ctx.scale(40, 300), ctx.scale(20, 200))
     return common.finish(ctx, {})
